@@ -11,7 +11,9 @@
    mask     = 0/1 per file: analysed or not (model's own answer, leg c17.handled), or "-" if the session faults
    raw      = oracle: diagnostics of the everything-enabled run over the analysed files:
               <file hex>:<type>:<line>:<col>[:<ref file hex>] comma separated ("_" empty)
-   Answer of c17.filter: <model>\t<spec>\t<classes>;  of c17.handled: <mask> *)
+   Answer of c17.filter: <model>\t<spec>\t<classes>;  of c17.handled: <mask>;
+   of c17.variant (any line): the five booleans of the model variant in use (regexp gate coupled dead dup);
+   of c17.tojson (a client cfg): the same intent written as luahelper.json (Config.to_json of the variant in use) *)
 
 let split c s = String.split_on_char c s
 let plist f s = if s = "_" then [] else List.map f (split ',' s)
@@ -76,9 +78,22 @@ let show_diags l =
   String.concat "," (List.map (fun d -> Printf.sprintf "%s:%d:%d:%d" (hex_of_bytes d.d_file) (int_of_n d.d_type)
                                   (int_of_n d.d_line) (int_of_n d.d_col)) l)
 
-(* which variant of the model: by default the one the translator derived from the code (Tie.fixed_regexp_now: the
-   repaired variant iff global_conf.go no longer calls regexp.MustCompile on user text); C17_FIXED=0/1 overrides *)
-let fixed = (try Sys.getenv "C17_FIXED" = "1" with Not_found -> fixed_regexp_now)
+(* which variant of the model: by default the one the translator derived from the code (Tie.fixes_now: one boolean per
+   fix: commit, each read off the Go sources on every run).  C17_FIXED overrides: "1" = deployed (all repairs),
+   "0" = the original code, "r1" = the code after round 1, or five 0/1 characters (regexp gate coupled dead dup) *)
+let fx =
+  match (try Some (Sys.getenv "C17_FIXED") with Not_found -> None) with
+  | None -> fixes_now
+  | Some "1" -> deployed
+  | Some "0" -> code_original
+  | Some "r1" -> code_round1
+  | Some s when String.length s = 5 ->
+    { fx_regexp = (s.[0] = '1'); fx_gate = (if s.[1] = '1' then gate_types_fixed else special_types); fx_coupled = (s.[2] = '1'); fx_dead = (s.[3] = '1');
+      fx_dup = (s.[4] = '1') }
+  | Some s -> failwith ("bad C17_FIXED " ^ s)
+(* the analysed set and the spec column are computed with the regexp repair in (it never faults and agrees with the
+   code whenever the code does not fault), so that they are meaningful for crash cases too *)
+let fx_nofault = { fx with fx_regexp = true }
 
 type parsed = { root : n list; files : n list list; json : json_cfg option; c0 : client_cfg; lr : bool;
                 cs : client_cfg list; rest : string list }
@@ -90,10 +105,8 @@ let parse line =
       cs = (if cs = "-" then [] else List.map parse_client (split '|' cs)); rest }
   | _ -> failwith "bad case"
 
-(* the analysed set is computed with the repaired variant, which never faults and agrees with the code whenever
-   the code does not fault, so that the spec column is meaningful for crash cases too *)
 let mask_of re_ok re_match p =
-  match session true re_ok p.json p.c0 false p.cs with
+  match session fx_nofault re_ok p.json p.c0 false p.cs with
   | Ok s -> String.concat "" (List.map (fun f -> if is_handled re_ok re_match s.s_g f then "1" else "0") p.files)
   | _ -> "-"
 
@@ -113,23 +126,34 @@ let () = register "c17.filter" (fun line ->
     let raw = (fun _ -> rawl) in
     let i = session_intent p.json p.c0 p.cs in   (* LocalRun is not part of the intent *)
     let spec = show_diags (spec_shown re_ok re_match raw i p.root p.files) in
-    (match session fixed re_ok p.json p.c0 p.lr p.cs with
+    (match session fx re_ok p.json p.c0 p.lr p.cs with
      | Ok s ->
        let g = s.s_g in
-       let model = (match run fixed re_ok re_match raw p.root p.files p.json p.c0 p.lr p.cs with
+       let model = (match run fx re_ok re_match raw p.root p.files p.json p.c0 p.lr p.cs with
            | Ok l -> show_diags l | _ -> "MODEL-INCONSISTENT") in
        let cls = ref [] in
        let add c = if not (List.mem c !cls) then cls := !cls @ [c] in
        List.iter (fun d ->
-           if cls_special_gate re_ok re_match g i p.root d then add "special_gate";
-           if cls_coupled re_ok re_match g i p.root d then add "coupled_type";
+           if cls_special_gate fx re_ok re_match g i p.root d then add "special_gate";
+           if cls_coupled fx re_ok re_match g i p.root d then add "coupled_type";
            if cls_dead_flag re_ok re_match g i p.root d then add "dead_flag") rawl;
-       if not (json_wf p.json) then add "dup_file_rule";
+       if not (json_wf fx p.json) then add "dup_file_rule";
        model ^ "\t" ^ spec ^ "\t" ^ (if !cls = [] then "-" else String.concat "," !cls)
      | Fault Regexp -> "CRASH regexp\t" ^ spec ^ "\tbad_regex"
      | Fault NilDeref -> "CRASH nil-map\t" ^ spec ^ "\tlocal_master_off"
      | Fault _ -> "CRASH other\t" ^ spec ^ "\t-"
      | OutOfFuel -> "OUT-OF-FUEL\t" ^ spec ^ "\t-")
   | _ -> "BAD-CASE")
+
+let () = register "c17.variant" (fun _ ->
+  String.concat "" (List.map (fun b -> if b then "1" else "0")
+                      [fx.fx_regexp; gate_covers fx; fx.fx_coupled; fx.fx_dead; fx.fx_dup]))
+
+let show_names l = if l = [] then "_" else String.concat "," (List.map (fun x -> if x = [] then "-" else hex_of_bytes x) l)
+let show_ints l = if l = [] then "_" else String.concat "." (List.map (fun x -> string_of_int (int_of_n x)) l)
+let () = register "c17.tojson" (fun line ->
+  let j = to_json fx (parse_client (String.trim line)) in
+  Printf.sprintf "%d;%s;%s;%s;%s;_;0" (int_of_n j.j_show) (show_ints j.j_ignore_types) (show_ints j.j_open_types)
+    (show_names j.j_ignore_handle) (show_names j.j_ignore_err))
 
 let () = main ()
